@@ -75,6 +75,29 @@ CHECKS = {
               "binary = Go's own verdict (import scoping, scope lookup, NewMethodSet + Identical, cross-checked with types.Implements) including the names of the missing methods."),
         note="Fragment: non-generic types and interfaces; no unexported interface methods across packages; no @implements on an alias declaration. types.Identical is a library model (canonical forms) exercised on every generated pair.",
         technique="Coq proof (resolution, three-phase characterisation, signature-matching laws) + correspondence with the model and with Go's type checker as independent oracle"),
+    "C06": dict(
+        text=("Theorems (Coq): the analysis of a package reads the facts of its direct imports and nothing else (two fact stores that answer alike for every direct import path give the same "
+              "diagnostics, texts and exported fact); the exported fact is a function of the package and the configuration alone; every index answers by membership of the annotation in the "
+              "facts of the declaring package wherever they come from; every field of every fact struct is exported and of a gob-encodable type (regenerated from annotation.go) and a value "
+              "with only exported fields survives the gob round trip (library model); the five checkers require the three readers and declare one fact type each (regenerated from "
+              "analyzer.go); every order of per-package actions that respects the import graph, over any universe of packages, yields the driver-independent result, which is the same in "
+              "every universe offering the package the same direct imports. PARTIAL for gob/unitchecker plumbing. Tied to the code by running the same worlds (import DAG of depth >= 2 with "
+              "annotated values flowing through an intermediate API into a package that does not import the declaring one, two packages of one name on an allow-list, grammar-sweeping annotation "
+              "values) through the standalone binary, go vet -vettool, in-process checker.Analyze parallel / sequential / with SanityCheck, and the model: identical (file, line, column, "
+              "code, message); plus single-package runs against the ./... run."),
+        note="gob and the unitchecker fact files are foreign code: exercised by the runs, modelled only by the exported-field rule.",
+        technique="Coq proof (locality, schedule/universe independence by invariant over the action order, gob view) + five-driver and model correspondence through the real code"),
+    "C11": dict(
+        text=("Theorems (Coq): for every universe of packages with distinct paths and every order of the per-package actions that respects the import graph - sequential or not, whatever the "
+              "listing order - the run yields for each package the same result value (diagnostics AND message texts), namely the driver-independent one; results do not depend on unrelated "
+              "packages in the run; the configuration cell behaves as write-once under a constant writer; obligation on the source regenerated on every run: every package-level variable of "
+              "the non-test code is never assigned after initialisation and only read-only methods are called on it (compiled regexes, Aho-Corasick Contains - not Match -, sync.Once.Do), "
+              "except the configuration cell assigned once inside configOnce.Do. PARTIAL: freedom from data races is a fact about the Go memory model that no executable model exhibits; it is "
+              "sampled by a -race build. Tied to the code by byte comparison of the normalised -json output (package, analyzer, position, full text) of repeated parallel runs, the sequential "
+              "driver, permuted and reversed package lists, single-world runs, on DAG worlds, a hot module (16 packages x 60 annotated declarations analysed concurrently) and a package that "
+              "exists in two type-checked instances (test variants); and by the race detector."),
+        note="The race detector samples schedules; the theorem covers logical non-interference (no action reads anything but its declared inputs).",
+        technique="Coq proof (schedule independence by invariant; shared-state obligation on the regenerated inventory) + byte-level output comparison across schedules and a -race build"),
     "C07": dict(
         text=("Theorems (Coq): a comment before the package clause covers the whole file; otherwise the scope ends at the end of the first declaration that ends after the comment when the comment "
               "stands before it, else at the end of the node the stateful pruned walk settles on, which is the FIRST node in source order that starts after the comment (proved for every tree whose "
